@@ -91,6 +91,11 @@ Example C14_pinned_leaks_nonvacuous :
   let s := run pinned_cfg (init 0 0 true) [ESend 1 false; ETimeout 1; EWrite 5 false] in
   quiescent s = true /\ length (table s) = 2%nat.
 Proof. exact pinned_leaks. Qed.
+(* ... and at a configuration that differs from the repaired one only in writing the payload
+   AFTER the completion signal, a caller whose reply was delivered returns (nil, nil) *)
+Example C14_store_after_signal_nonvacuous :
+  stat_of 1 (run store_after_cfg (init 0 0 true) [ESend 1 false; EDeliver 1 7; EWake 1; ERemove 1]) = Some (DoneErr 4).
+Proof. exact store_after_returns_nil. Qed.
 Example C14_pinned_steals_nonvacuous :
   let s := run pinned_cfg (init 0 0 true) [ESend 1 false; EWrite 1 false; EDeliver 1 7; EWake 1] in
   stat_of 1 s = Some Waiting /\ parked s = 1%nat.
